@@ -403,7 +403,14 @@ def wake (s : State) (c k : Nat) : State :=
               | none => setC s c { cl with out := out' }
         | .done => s
 
-/-- the client closes its connection: `storeUnregister`; `quick`: the entry has no other client and `CheckQuickAbortIsReasonable` -/
+/-- `CheckQuickAbortIsReasonable` once the store client is gone: no other client, still pending, and the entry is private, or has
+no reply header yet, or the `quick_abort_*` limits (`quick`: their verdict, a function of sizes the model does not follow) say so -/
+def quickAbort (s : State) (e : Nat) (quick : Bool) : Bool :=
+  match s.entries e with
+  | none => false
+  | some ent => !clientLocks s e && ent.pending && (ent.keyPrivate || ent.hdr.isNone || quick)
+
+/-- the client closes its connection: `storeUnregister` -/
 def clientGone (s : State) (c : Nat) (quick : Bool) : State :=
   match s.clients c with
   | none => s
@@ -411,7 +418,7 @@ def clientGone (s : State) (c : Nat) (quick : Bool) : State :=
     if !cl.attached then s
     else
       let s1 := finish s c cl .gone
-      if quick && !clientLocks s1 cl.entry then abort s1 cl.entry else s1
+      if quickAbort s1 cl.entry quick then abort s1 cl.entry else s1
 
 /-- the replacement policy / `handleIdleEntry` drops the idle public entry -/
 def evict (s : State) : State :=
